@@ -60,6 +60,103 @@ theorem drmrelContentW_some (c : WCfg) (parent : Option Name) (s : Bytes) (st st
     · cases h
   · cases h
 
+/-- What a typed content text is written as (the payload `p` of the single OPAQUE), and why. -/
+def TypedOut (c : WCfg) (parent : Option Name) (s : Bytes) (cur : Option TagRow) (p : Bytes) : Prop :=
+  (isWv c.lang.id = true ∧ ∃ t, cur = some t ∧
+     ((Typed.wvEncKind t.page t.token = .integer ∧ p.length ≤ 4) ∨
+      (Typed.wvEncKind t.page t.token = .dateTime ∧ p.length = 6))) ∨
+  (c.lang.id = 1801 ∧ ∃ r, parent = some (.token r) ∧ isKvRow c.lang.id r = true ∧
+     Codec.b64DecodeE (b64TextW s) = .ok p)
+
+theorem wvContentW_some' (c : WCfg) (s : Bytes) (st st1 : WSt) (hs : nulFree s = true)
+    (h : wvContentW c s st = .ok (some st1)) :
+    ∃ it, Leaf c st.strtbl it ∧ st1 = st.emit (serItem it) ∧
+      (opqsItem it = [] ∨ ∃ p, it = .opaque p ∧ ∃ t, st.curTag = some t ∧
+        ((Typed.wvEncKind t.page t.token = .integer ∧ p.length ≤ 4) ∨
+         (Typed.wvEncKind t.page t.token = .dateTime ∧ p.length = 6))) := by
+  have hext : (match c.lang.exts with
+      | none => pure none
+      | some exts =>
+        match encExt exts s with
+        | some r => pure (some (st.emit (extW r.token)))
+        | none => pure none : Except Err (Option WSt)) = .ok (some st1) →
+      ∃ it, Leaf c st.strtbl it ∧ st1 = st.emit (serItem it) ∧ opqsItem it = [] := by
+    intro h
+    split at h
+    · cases h
+    · rename_i exts hexts
+      split at h
+      · rename_i r hr
+        have h' : (Except.ok (some (st.emit (extW r.token))) : Except Err (Option WSt)) = .ok (some st1) := h
+        injection h' with h'; injection h' with h'
+        refine ⟨.ext none (.tbl 0 (r.token % 256)), .ext _ (by simp [hexts]) (Nat.mod_lt _ (by decide)), ?_, opqsItem_ext _ _⟩
+        rw [← h', serItem_extT0]; rfl
+      · cases h
+  unfold wvContentW at h
+  cases hct : st.curTag with
+  | none =>
+    rw [hct] at h
+    obtain ⟨it, h1, h2, h3⟩ := hext h
+    exact ⟨it, h1, h2, Or.inl h3⟩
+  | some t =>
+    rw [hct] at h
+    simp only at h
+    cases hk : Typed.wvEncKind t.page t.token with
+    | integer =>
+      rw [hk] at h
+      simp only at h
+      cases hx : Typed.encodeWvInt s with
+      | error e => rw [hx] at h; cases h
+      | ok r =>
+        rw [hx] at h
+        cases r with
+        | none => cases h
+        | some item =>
+          have h' : (Except.ok (some (st.emit item)) : Except Err (Option WSt)) = .ok (some st1) := h
+          injection h' with h'; injection h' with h'
+          obtain ⟨p, rfl, hp⟩ := encodeWvInt_shape' s item hx
+          exact ⟨.opaque p, .opq p, by rw [← h', serItem_opaque], Or.inr ⟨p, rfl, t, rfl, Or.inl ⟨hk, hp⟩⟩⟩
+    | dateTime =>
+      rw [hk] at h
+      simp only at h
+      obtain ⟨item, hi, rfl⟩ := bind_ok_some _ (fun item : Typed.WvItem => st.emit item.bytes) _ h
+      rcases encodeWvDate_shape' s item hi with hb | ⟨p, hb, hp⟩
+      · exact ⟨.str (.inl s), .inl s hs, by rw [hb, serItem_str], Or.inl (opqsItem_str _)⟩
+      · exact ⟨.opaque p, .opq p, by rw [hb, serItem_opaque], Or.inr ⟨p, rfl, t, rfl, Or.inr ⟨hk, hp⟩⟩⟩
+    | other =>
+      rw [hk] at h
+      obtain ⟨it, h1, h2, h3⟩ := hext h
+      exact ⟨it, h1, h2, Or.inl h3⟩
+
+theorem drmrelContentW_some' (parent : Option Name) (s : Bytes) (st st1 : WSt)
+    (h : drmrelContentW parent s st = .ok (some st1)) :
+    ∃ p, st1 = st.emit (serItem (.opaque p)) ∧ ∃ r, parent = some (.token r) ∧
+      (r.page == 0 && r.token == 0x0C) = true ∧ Codec.b64DecodeE (b64TextW s) = .ok p := by
+  unfold drmrelContentW at h
+  split at h
+  · rename_i r
+    split at h
+    · rename_i hr
+      obtain ⟨d, hd, rfl⟩ := bind_ok_some _ (fun d => st.emit (opaqueW d)) _ h
+      exact ⟨d, by rw [serItem_opq], r, rfl, hr, hd⟩
+    · cases h
+  · cases h
+
+theorem opqs_velts_all (l : List VElt) : opqsItems (l.flatMap itemsOfVElt) = [] := by
+  induction l with
+  | nil => simp [opqsItems_nil]
+  | cons e es ih =>
+    rw [List.flatMap_cons, opqsItems_append, ih, List.append_nil]
+    cases e with
+    | str s =>
+      simp only [itemsOfVElt]
+      split
+      · rw [opqsItems_cons, opqsItem_str, opqsItems_nil]; rfl
+      · rw [opqsItems_nil]
+    | ref o => simp only [itemsOfVElt]; rw [opqsItems_cons, opqsItem_str, opqsItems_nil]; rfl
+    | ext r => simp only [itemsOfVElt]; rw [opqsItems_cons, opqsItem_ext, opqsItems_nil]; rfl
+    | tok r => simp only [itemsOfVElt]; rw [opqsItems_nil]
+
 theorem nulFree_syncmlTypeText (id : Nat) (s : Bytes) (hs : nulFree s = true) :
     nulFree (syncmlTypeText id s) = true := by
   unfold syncmlTypeText
@@ -73,25 +170,29 @@ theorem nulFree_syncmlTypeText (id : Nat) (s : Bytes) (hs : nulFree s = true) :
   · exact hs
 
 /-- Content context of `wbxml_encode_value_element_buffer`. -/
-theorem encContentValueW_spec (c : WCfg) (parent : Option Name) (s : Bytes) (st st' : WSt)
+theorem encContentValueW_spec' (c : WCfg) (parent : Option Name) (s : Bytes) (st st' : WSt)
     (hs : nulFree s = true) (h : encContentValueW c parent s st = .ok st') :
-    ∃ items, st' = st.emit (serItems items) ∧ ∀ it ∈ items, Leaf c st.strtbl it := by
+    ∃ items, st' = st.emit (serItems items) ∧ (∀ it ∈ items, Leaf c st.strtbl it) ∧
+      (opqsItems items = [] ∨ ∃ p, items = [.opaque p] ∧ s ≠ [] ∧ TypedOut c parent s st.curTag p) := by
   unfold encContentValueW at h
   split at h
   · injection h with h; subst h
-    exact ⟨[], by rw [serItems_nil, emit_nil], by intro it hit; cases hit⟩
-  · -- generic path from a list that is already inside its classes
+    exact ⟨[], by rw [serItems_nil, emit_nil], (by intro it hit; cases hit), Or.inl opqsItems_nil⟩
+  · rename_i hne
+    have hsne : s ≠ [] := fun e => hne (by rw [e]; rfl)
+    -- generic path from a list that is already inside its classes
     have generic : ∀ l0 : List VElt, (∀ e ∈ l0, VOk c st.strtbl e ∧ notTok e) →
         (do let l ← (if c.useStrtbl = true then splitByStrtbl st.strtbl l0 else pure l0)
             pure (emitVElts st l) : Except Err WSt) = .ok st' →
-        ∃ items, st' = st.emit (serItems items) ∧ ∀ it ∈ items, Leaf c st.strtbl it := by
+        ∃ items, st' = st.emit (serItems items) ∧ (∀ it ∈ items, Leaf c st.strtbl it) ∧ opqsItems items = [] := by
       intro l0 hl0 h
       have hcut : CutStable (fun e => VOk c st.strtbl e ∧ notTok e) :=
         fun s i h => ⟨⟨(vok_cut c st.strtbl s i h.1).1, trivial⟩, ⟨(vok_cut c st.strtbl s i h.1).2, trivial⟩⟩
       have fin : ∀ l : List VElt, (∀ e ∈ l, VOk c st.strtbl e ∧ notTok e) →
-          ∃ items, emitVElts st l = st.emit (serItems items) ∧ ∀ it ∈ items, Leaf c st.strtbl it :=
+          ∃ items, emitVElts st l = st.emit (serItems items) ∧ (∀ it ∈ items, Leaf c st.strtbl it) ∧
+            opqsItems items = [] :=
         fun l hl => ⟨_, emitVElts_content l (fun e he => (hl e he).2) st,
-          flatMap_itemsOfVElt_leaf c st.strtbl l (fun e he => (hl e he).1)⟩
+          flatMap_itemsOfVElt_leaf c st.strtbl l (fun e he => (hl e he).1), opqs_velts_all l⟩
       cases hu : c.useStrtbl with
       | false =>
         simp only [hu, Bool.false_eq_true, ↓reduceIte] at h
@@ -119,7 +220,7 @@ theorem encContentValueW_spec (c : WCfg) (parent : Option Name) (s : Bytes) (st 
             | none => l
           let l ← (if c.useStrtbl = true then splitByStrtbl st.strtbl l else pure l)
           pure (emitVElts st l) : Except Err WSt) = .ok st' →
-        ∃ items, st' = st.emit (serItems items) ∧ ∀ it ∈ items, Leaf c st.strtbl it := by
+        ∃ items, st' = st.emit (serItems items) ∧ (∀ it ∈ items, Leaf c st.strtbl it) ∧ opqsItems items = [] := by
       intro h
       cases hx : c.lang.exts with
       | none => rw [hx] at h; exact generic _ hstart h
@@ -138,9 +239,13 @@ theorem encContentValueW_spec (c : WCfg) (parent : Option Name) (s : Bytes) (st 
         have h' : (Except.ok st1 : Except Err WSt) = .ok st' := h
         injection h' with h'; subst h'
         split at hwv
-        · obtain ⟨it, hit, rfl⟩ := wvContentW_some c s st st1 hs hwv
-          exact ⟨[it], by rw [serItems_cons, serItems_nil, List.append_nil],
-            by intro x hx; simp only [List.mem_cons, List.mem_nil_iff, or_false] at hx; subst hx; exact hit⟩
+        · rename_i hisWv
+          obtain ⟨it, hit, rfl, hk⟩ := wvContentW_some' c s st st1 hs hwv
+          refine ⟨[it], by rw [serItems_cons, serItems_nil, List.append_nil],
+            (by intro x hx; simp only [List.mem_cons, List.mem_nil_iff, or_false] at hx; subst hx; exact hit), ?_⟩
+          rcases hk with hk | ⟨p, rfl, t, ht, hk⟩
+          · exact Or.inl (by rw [opqsItems_cons, hk, opqsItems_nil]; rfl)
+          · exact Or.inr ⟨p, rfl, hsne, Or.inl ⟨hisWv, t, ht, hk⟩⟩
         · cases hwv
       | none =>
         have h2 : (do
@@ -163,12 +268,25 @@ theorem encContentValueW_spec (c : WCfg) (parent : Option Name) (s : Bytes) (st 
             have h' : (Except.ok st1 : Except Err WSt) = .ok st' := h2
             injection h' with h'; subst h'
             split at hdr
-            · obtain ⟨it, hit, rfl⟩ := drmrelContentW_some c parent s st st1 hdr
-              exact ⟨[it], by rw [serItems_cons, serItems_nil, List.append_nil],
-                by intro x hx; simp only [List.mem_cons, List.mem_nil_iff, or_false] at hx; subst hx; exact hit⟩
+            · rename_i hisD
+              obtain ⟨p, rfl, r, hpar, hr, hdec⟩ := drmrelContentW_some' parent s st st1 hdr
+              have hid : c.lang.id = 1801 := by simpa using hisD
+              refine ⟨[.opaque p], by rw [serItems_cons, serItems_nil, List.append_nil],
+                (by intro x hx; simp only [List.mem_cons, List.mem_nil_iff, or_false] at hx; subst hx; exact .opq p), ?_⟩
+              refine Or.inr ⟨p, rfl, hsne, Or.inr ⟨hid, r, hpar, ?_, hdec⟩⟩
+              simp only [isKvRow, hid, beq_self_eq_true, Bool.true_and]
+              simpa using hr
             · cases hdr
-          | none => exact tail h2
+          | none =>
+            obtain ⟨items, h1, h2, h3⟩ := tail h2
+            exact ⟨items, h1, h2, Or.inl h3⟩
 
+
+theorem encContentValueW_spec (c : WCfg) (parent : Option Name) (s : Bytes) (st st' : WSt)
+    (hs : nulFree s = true) (h : encContentValueW c parent s st = .ok st') :
+    ∃ items, st' = st.emit (serItems items) ∧ ∀ it ∈ items, Leaf c st.strtbl it := by
+  obtain ⟨items, h1, h2, _⟩ := encContentValueW_spec' c parent s st st' hs h
+  exact ⟨items, h1, h2⟩
 
 theorem syncmlTypeText_nil (id : Nat) : syncmlTypeText id [] = [] := by
   unfold syncmlTypeText
@@ -257,10 +375,16 @@ def normText (c : WCfg) (s : Bytes) : Bytes :=
   if c.ignoreEmpty && s.all isSpaceC then []
   else syncmlTypeText c.lang.id (cstrOf (if c.removeBlanks then stripBlanks s else s))
 
+/-- Which OPAQUE a text node may be written as: none; the raw octets under a binary-flagged
+    `current_tag`; or the single typed one (outside CDATA, for text that is not silent). -/
+def TextOut (c : WCfg) (parent : Option Name) (s : Bytes) (st : WSt) (items : List Item) : Prop :=
+  opqsItems items = [] ∨ (isBinaryTag st.curTag = true ∧ items = [.opaque s]) ∨
+  ∃ p, items = [.opaque p] ∧ textSilent c s = false ∧ st.inCdata = false ∧ TypedOut c parent (textArg c s) st.curTag p
+
 /-- `parse_text`: leaves only; neither code page nor the string table changes; outside CDATA and
     binary-flagged elements, in a language whose content is not typed, a reader gets exactly the
     octets of `normText`. -/
-theorem encTextW_spec (c : WCfg) (parent : Option Name) (s : Bytes) (st st' : WSt) (hinv : StrInv st)
+theorem encTextW_spec' (c : WCfg) (parent : Option Name) (s : Bytes) (st st' : WSt) (hinv : StrInv st)
     (h : encTextW c parent s st = .ok st') :
     ∃ items, (∀ it ∈ items, Leaf c st.strtbl it) ∧ st'.out = st.out ++ serItems items ∧
       st'.tagPage = st.tagPage ∧ st'.attrPage = st.attrPage ∧ st'.strtbl = st.strtbl ∧
@@ -269,7 +393,8 @@ theorem encTextW_spec (c : WCfg) (parent : Option Name) (s : Bytes) (st st' : WS
         st.inCdata = false → isBinaryTag st.curTag = false →
         opqsItems items = [] ∧
         ∀ ctx : Ctx, Resolves ctx.tbl st.strtbl → ∀ own pg,
-          (evItems ctx own pg items).1.flatMap toks = (normText c s).map .ch) := by
+          (evItems ctx own pg items).1.flatMap toks = (normText c s).map .ch) ∧
+      TextOut c parent s st items := by
   have hA : ∀ k s', ({ st with textNo := st.textNo + 1 } : WSt).aliasWrite k s' = { st with textNo := st.textNo + 1 } :=
     fun k s' => aliasWrite_eq _ k s' hinv.noAlias
   unfold encTextW at h
@@ -278,14 +403,15 @@ theorem encTextW_spec (c : WCfg) (parent : Option Name) (s : Bytes) (st st' : WS
   · rename_i hbin
     injection h with h; subst h
     refine ⟨[.opaque s], by intro it hit; simp only [List.mem_cons, List.mem_nil_iff, or_false] at hit; subst hit; exact .opq s,
-      by rw [serItems_cons, serItems_nil, serItem_opq]; simp, rfl, rfl, rfl, rfl, rfl, ?_⟩
+      by rw [serItems_cons, serItems_nil, serItem_opq]; simp, rfl, rfl, rfl, rfl, rfl, ?_, Or.inr (Or.inl ⟨hbin, rfl⟩)⟩
     intro _ _ _ _ hb
     have : isBinaryTag st.curTag = true := hbin
     rw [hb] at this; cases this
   · split at h
     · rename_i hskip
       injection h with h; subst h
-      refine ⟨[], (by intro it hit; cases hit), by rw [serItems_nil, List.append_nil], rfl, rfl, rfl, rfl, rfl, ?_⟩
+      refine ⟨[], (by intro it hit; cases hit), by rw [serItems_nil, List.append_nil], rfl, rfl, rfl, rfl, rfl, ?_,
+        Or.inl opqsItems_nil⟩
       intro _ _ _ hcd _
       refine ⟨opqsItems_nil, ?_⟩
       intro ctx _ own pg
@@ -301,14 +427,32 @@ theorem encTextW_spec (c : WCfg) (parent : Option Name) (s : Bytes) (st st' : WS
         split at h
         · cases h
         · injection h with h; subst h
-          refine ⟨[], (by intro it hit; cases hit), by rw [serItems_nil, List.append_nil], rfl, rfl, rfl, rfl, rfl, ?_⟩
+          refine ⟨[], (by intro it hit; cases hit), by rw [serItems_nil, List.append_nil], rfl, rfl, rfl, rfl, rfl, ?_,
+            Or.inl opqsItems_nil⟩
           intro _ _ _ hcd _
           rw [hcd1'] at hcd; cases hcd
-      · by_cases hp : isWv c.lang.id = false ∧ (c.lang.id == 1801) = false ∧ langOk c.lang = true
-        · obtain ⟨items, hst, hleaf, _, hnoq, htxt⟩ :=
+      · rename_i hcd1
+        have hcd0 : st.inCdata = false := by simpa using hcd1
+        have hskip0 : (c.ignoreEmpty && s.all isSpaceC) = false := by
+          have hskip' : ¬ (!st.inCdata && c.ignoreEmpty && s.all isSpaceC) = true := hskip
+          rw [hcd0] at hskip'
+          simpa using hskip'
+        have harg : cstrOf (if (!st.inCdata && c.removeBlanks) = true then stripBlanks s else s) = textArg c s := by
+          simp only [textArg, hcd0, Bool.not_false, Bool.true_and]
+        obtain ⟨items, hst, hleaf, hcls⟩ := encContentValueW_spec' c parent _ _ st' (nulFree_cstrOf _) h
+        have hout : TextOut c parent s st items := by
+          rcases hcls with hno | ⟨p, hp1, hp2, hp3⟩
+          · exact Or.inl hno
+          · refine Or.inr (Or.inr ⟨p, hp1, ?_, hcd0, ?_⟩)
+            · rw [harg] at hp2
+              simp only [textSilent, hskip0, Bool.false_or, List.isEmpty_eq_false_iff]
+              exact hp2
+            · rw [harg] at hp3; exact hp3
+        by_cases hp : isWv c.lang.id = false ∧ (c.lang.id == 1801) = false ∧ langOk c.lang = true
+        · obtain ⟨items2, hst2, hleaf2, _, hnoq, htxt⟩ :=
             encContentValueW_text c parent _ _ st' (nulFree_cstrOf _) hp.2.2 hp.1 hp.2.1 h
-          subst hst
-          refine ⟨items, hleaf, rfl, rfl, rfl, rfl, rfl, rfl, ?_⟩
+          subst hst2
+          refine ⟨items2, hleaf2, rfl, rfl, rfl, rfl, rfl, rfl, ?_, Or.inl hnoq⟩
           intro _ _ _ hcd _
           refine ⟨hnoq, ?_⟩
           intro ctx hres own pg
@@ -317,10 +461,22 @@ theorem encTextW_spec (c : WCfg) (parent : Option Name) (s : Bytes) (st st' : WS
           simp only [Bool.not_false, Bool.true_and] at hskip'
           rw [(htxt ctx hres own pg).2]
           simp only [normText, hskip', Bool.false_eq_true, ↓reduceIte, hcd, Bool.not_false, Bool.true_and]
-        · obtain ⟨items, hst, hleaf⟩ := encContentValueW_spec c parent _ _ st' (nulFree_cstrOf _) h
-          subst hst
-          refine ⟨items, hleaf, rfl, rfl, rfl, rfl, rfl, rfl, ?_⟩
+        · subst hst
+          refine ⟨items, hleaf, rfl, rfl, rfl, rfl, rfl, rfl, ?_, hout⟩
           intro h1 h2 h3
           exact absurd ⟨h1, h2, h3⟩ hp
+
+theorem encTextW_spec (c : WCfg) (parent : Option Name) (s : Bytes) (st st' : WSt) (hinv : StrInv st)
+    (h : encTextW c parent s st = .ok st') :
+    ∃ items, (∀ it ∈ items, Leaf c st.strtbl it) ∧ st'.out = st.out ++ serItems items ∧
+      st'.tagPage = st.tagPage ∧ st'.attrPage = st.attrPage ∧ st'.strtbl = st.strtbl ∧
+      st'.strtblLen = st.strtblLen ∧ st'.inCdata = st.inCdata ∧
+      (isWv c.lang.id = false → (c.lang.id == 1801) = false → langOk c.lang = true →
+        st.inCdata = false → isBinaryTag st.curTag = false →
+        opqsItems items = [] ∧
+        ∀ ctx : Ctx, Resolves ctx.tbl st.strtbl → ∀ own pg,
+          (evItems ctx own pg items).1.flatMap toks = (normText c s).map .ch) := by
+  obtain ⟨items, h1, h2, h3, h4, h5, h6, h7, h8, _⟩ := encTextW_spec' c parent s st st' hinv h
+  exact ⟨items, h1, h2, h3, h4, h5, h6, h7, h8⟩
 
 end Wbxml.Lemmas.EncW
